@@ -2,19 +2,50 @@
 
 PROPS = {
     "C18": {
-        "level_text": "Proof, for all real inputs (per component; sqrt/exp/log uninterpreted with the axioms stated in the contracts), that the seven RBF kernel "
-                      "derivative functions used by RBFRegressor.predict_jacobian are the derivatives d/dx_i phi(|x|) = phi'(r) x_i / r of the kernels that "
-                      "scipy.interpolate.Rbf evaluates (epsilon-scaled for multiquadric, inverse multiquadric and gaussian; unscaled for linear, cubic, quintic "
-                      "and thin plate), up to the documented TOL regularisation of the two guarded kernels.",
-        "level_note": "Partial: only the kernel derivative formulas. Trusted: pyvc, z3 (nonlinear reals), SciPy's kernel definitions (assumed from scipy.interpolate.Rbf), "
-                      "component-wise reading of the array expressions. Not covered: the 4-D broadcasting of _predict_jacobian, every other regressor, transformers, "
-                      "the surrogate discipline.",
+        "level_text": "Proof (contracts/c18_surrogates.py, contracts/c18_transformers.py), for all real inputs and all sizes: (a) the seven RBF kernel derivative "
+                      "functions used by RBFRegressor.predict_jacobian are the derivatives d/dx_i phi(|x|) = phi'(r) x_i / r of the kernels that "
+                      "scipy.interpolate.Rbf evaluates (per component; sqrt/exp/log uninterpreted), up to the documented TOL regularisation; "
+                      "(b) Scaler (and MinMaxScaler / StandardScaler, which inherit the four maps): transform[i,j] = x[i,j]*coef[j] + offset[j], "
+                      "inverse_transform[i,j] = (y[i,j] - offset[j]) / coef[j], compute_jacobian[i] = diag(coef), compute_jacobian_inverse[i] = diag(1/coef) "
+                      "for every sample i and feature j of 2-D data; lemmas: the inverse undoes the transformation in both directions when coef != 0, the "
+                      "Jacobian entries are the (exact) difference quotients of the two maps and the two Jacobians are inverse of each other; the offset / "
+                      "coefficient setters and Scaler._fit (size-1 parameters expanded to one equal component per feature); MinMaxScaler._fit and "
+                      "StandardScaler._fit compute the documented coefficients (min -> 0 and max -> 1, mean -> 0) with the documented fall-back for constant "
+                      "features and NEVER a zero coefficient (the fitted scaler is lossless); (c) Pipeline of abstract member transformers, any length: "
+                      "transform applies the members first to last, inverse_transform the inverse members last to first, compute_jacobian / "
+                      "compute_jacobian_inverse return the chain-rule product J_{n-1}(x_{n-1}) @ (... @ (J_0(x_0) @ I)) with every member Jacobian evaluated at "
+                      "the successive intermediate point and multiplied on the left (uninterpreted, non-commutative matrix product); by induction "
+                      "inverse_transform(transform(x)) = x and transform(inverse_transform(y)) = y when every member is lossless; (d) "
+                      "SurrogateDiscipline._run returns exactly the (flattened) predictions of its regression model for the input data passed - same names, "
+                      "nothing else, one call - and _compute_jacobian stores exactly the model's predict_jacobian of the discipline's current input data; "
+                      "(e) MOERegressor with hard classification: row s of _predict_jacobian_hard is row s of the PUBLIC predict_jacobian of the local model the "
+                      "classifier selects for sample s, and _predict_all stacks the PUBLIC predictions of every local model.",
+        "level_note": "Trusted: pyvc, z3 (nonlinear reals, floats read as reals), SciPy's kernel definitions, the element-wise numpy axioms of pyvc/plug_c18.py "
+                      "(diag, x @ diag(c), tile, full, atleast_1d, where, column min/max/mean/std as uninterpreted functions with min <= entries <= max, std >= 0, "
+                      "unique, nonzero, row gather / scatter). ASSUMED (abstract, listed per function in the evidence): the regression model of a surrogate "
+                      "discipline (deterministic predict / predict_jacobian, ghost call logs), IO.get_input_data, Discipline._init_jacobian (touches jac only), "
+                      "the member transformers of a pipeline (uninterpreted maps; per-member losslessness is the hypothesis of the round-trip lemmas; the chain "
+                      "rule of calculus is what makes the product the derivative), the local models and the classifier of a mixture of experts (sample-wise "
+                      "uninterpreted public / raw prediction maps, labels in range). The decorator BaseTransformer._use_2d_array is dropped by extraction: "
+                      "the undecorated bodies are verified for 2-D data.",
         "design_ref": "DESIGN.md §4 C18",
-        "modules": ["contracts.c18_surrogates"],
+        "modules": ["contracts.c18_surrogates", "contracts.c18_transformers"],
         "assumptions": ["scipy.interpolate.Rbf kernels: multiquadric sqrt((r/eps)^2+1), inverse 1/sqrt((r/eps)^2+1), gaussian exp(-(r/eps)^2), linear r, cubic r^3, quintic r^5, thin_plate r^2 log r",
-                        "array expressions of the der_* functions act component-wise (numpy broadcasting)"],
-        "not_covered": ["RBFRegressor._predict_jacobian (axis bookkeeping)", "linear/polynomial/PCE/GP/MoE regressors", "transformers and pipelines", "SurrogateDiscipline",
-                        "interpolation of the learning data"],
+                        "array expressions of the der_* functions act component-wise (numpy broadcasting)",
+                        "numpy (pyvc/plug_c18.py): diag(c)[j,k] = c[j] if j == k else 0; (x @ diag(c))[i,j] = x[i,j]*c[j]; tile(M,(n,1,1))[i,j,k] = M[j,k]; full / atleast_1d / where "
+                        "element-wise; a.min(0)/max(0)/mean(0)/std(0) per-column uninterpreted with min <= a[i,j] <= max, min <= mean <= max, std >= 0 (ValueError for min/max "
+                        "without rows; NaN/inf not modelled); unique = increasing distinct values; x/0 is an unspecified real (numpy gives inf/nan with a warning)",
+                        "a fitted scaler has one coefficient and one offset per feature (established by the three _fit contracts when the initial sizes are 1 or n_features)",
+                        "abstract regression model / IO / _init_jacobian / member transformers / local models / classifier as described in level_note",
+                        "local models of a mixture of experts predict sample-wise (rows of a prediction on X[idx] are the rows idx of the prediction on X)"],
+        "not_covered": ["BaseTransformer._use_2d_array (nested function g: the 1-D -> 2-D reshaping and the out[..., 0, :] un-reshaping are dropped by extraction)",
+                        "BaseTransformer.fit / fit_transform, Pipeline._fit / duplicate, power transforms and dimension reductions (sklearn wrappers), JamesonSensor",
+                        "that predict_jacobian of a concrete regressor is the derivative of its predict (linear/polynomial/PCE/GP regressors, the transformer "
+                        "wrapping of BaseRegressor.DataFormatters), RBFRegressor._predict_jacobian (axis bookkeeping), interpolation of the learning data",
+                        "MOERegressor._predict (probability-weighted sum over clusters), soft classification, the relation d pred_k / dx = jac_k of the local models",
+                        "the relation between the argument of SurrogateDiscipline._run (io.data, or get_input_data(with_namespaces=False)) and io.get_input_data() used by "
+                        "_compute_jacobian: both are read by the model through its input names only (not verified)",
+                        "SurrogateDiscipline.__init__ (grammars, default inputs, linearization mode)"],
     },
     "C07": {
         "level_text": "Proof, for any number and sizes of functions / variables / couplings (unbounded, linear integer arithmetic), that the Jacobian "
@@ -58,12 +89,33 @@ PROPS = {
     "C16": {
         "level_text": "Proof, for all dimensions, points, steps and component subsets, that forward finite differences build the perturbation "
                       "matrix x + h e_k column by column and return the exact difference quotients of the (uninterpreted) function; "
-                      "order-of-accuracy identities on polynomials as real-arithmetic lemmas.",
-        "level_note": "Trusted: pyvc, the numpy model (npmodel.py: rank<=2 real arrays, paired fancy indexing, tile/reshape/T pattern), reals for floats. "
-                      "Not covered: centered differences and complex step (complex arrays, norm), parallel evaluation, discipline-level wrappers, float rounding.",
+                      "order-of-accuracy identities on polynomials as real-arithmetic lemmas. Same quotients, with the step actually received (scalar or "
+                      "one step per perturbation), for the sequential and for the parallel evaluation (FirstOrderFD._compute_parallel_grad: outputs taken "
+                      "positionally from the parallel execution, slot 0 = unperturbed point, slot k+1 = perturbation k). Jacobian checking: "
+                      "DisciplineJacApprox._compute_variable_indices returns, for every variable and every selection kind (int, list, slice, Ellipsis, None, "
+                      "absent), the flat indices offset(variable) + selected component, the offsets being the prefix sums of the FULL variable sizes "
+                      "(loop invariant, any number of variables), and the per-name component lists.",
+        "level_note": "Trusted: pyvc, the numpy model (npmodel.py: rank<=2 real arrays, paired fancy indexing, tile/reshape/T pattern), reals for floats; "
+                      "pyvc/plug_c16.py (list displays with starred items, [f]*n, lists of arrays, selection union type, flattening comprehension relative to "
+                      "contract-supplied offsets whose prefix-sum recurrence is a generated obligation). ASSUMED: the parallel execution is seen through the summary "
+                      "of its C13 contract for tasks that all succeed (len(result) = len(inputs), result[i] = functions[i](inputs[i]); one callable per input is a "
+                      "generated obligation; the task body is the real _wrap_function). "
+                      "Centered differences: the perturbation matrix without design space (columns k / n+k = x +- h e_k) and the quotients "
+                      "(F(P[:,k]) - F(P[:,n+k])) / ||P[:,k] - P[:,n+k]|| with numpy.linalg.norm uninterpreted (its value 2|h| on these columns is NOT derived). "
+                      "Complex step (contracts/c16_complex.py: perturbation matrix and quotients over (re, im) pairs) and centered differences with a design space "
+                      "(contracts/c16_centered.py) are written but NOT listed in `modules`: they expose reported gemseo defects awaiting triage. "
+                      "Not covered: discipline-level wrappers, float rounding.",
         "design_ref": "DESIGN.md §4 C16",
         "modules": ["contracts.c16_derivatives", "contracts.c16_approx"],
-        "not_covered": ["centered_differences.py", "complex_step.py", "derivatives_approx.py", "parallel gradient", "float cancellation error"],
+        "assumptions": ["CallableParallelExecution.execute: summary of its C13 contract (result:length, result:positional) for tasks that all succeed; extra **kwargs of the "
+                        "differentiated function are not modelled (empty)",
+                        "flattening comprehension: item t of sublist j at offsets(j) + t for the unique prefix-sum offsets of the sublist lengths",
+                        "a list has a non-negative length (type invariant of the selection lists)"],
+        "not_covered": ["centered differences: ||2 h e|| = 2|h| (norm uninterpreted), hence the textbook quotient; negative steps (reported: opposite sign); with a design space "
+                        "(reported defects, contracts/c16_centered.py)", "complex_step.py (contracts/c16_complex.py, reported defect: x_indices that is not a leading prefix)",
+                        "derivatives_approx.py except _compute_variable_indices (compute_approx_jac placement, check_jacobian comparison, auto_set_step)",
+                        "BaseGradientApproximator.f_gradient / generate_perturbations glue", "compute_optimal_step", "slices with a step and negative integer components in check_jacobian indices",
+                        "parallel centered differences / complex step", "float cancellation error"],
     },
     "C02": {
         "level_text": "Proof (all histories by invariant preservation, all sizes/values symbolically) that remove_variable, rename_variable, set_lower/upper_bound, "
@@ -122,7 +174,7 @@ PROPS = {
         "level_note": "Trusted: pyvc, z3; opaque arrays; listeners are opaque callables logged in a ghost call log (their effect on the counter is linked by the lemma, "
                       "not by store's frame). Not covered: BaseDriverLibrary.execute (settings plumbing, try/except -> result), stop criteria, DOE loop, third-party optimisers.",
         "design_ref": "DESIGN.md §4 C03",
-        "modules": ["contracts.c01_c03_evaluation"],
+        "modules": ["contracts.c01_c03_evaluation", "contracts.c03_driver"],
         "not_covered": ["BaseDriverLibrary.execute", "stop_criteria.py", "BaseDOELibrary._run", "use_database=False"],
     },
     "C05": {
@@ -139,7 +191,7 @@ PROPS = {
                       "ghost code in __ensure_input_data_exists (ghost variables only), DictProxy stores pickled copies, IO/grammar/_run environment of "
                       "execute assumed. Not covered: HDF5Cache, linearize protocol, locking, execute with a full cache (data converters).",
         "design_ref": "DESIGN.md §4 C05",
-        "modules": ["contracts.c05_caches", "contracts.c05_full_cache", "contracts.c05_discipline"],
+        "modules": ["contracts.c05_caches", "contracts.c05_full_cache", "contracts.c05_discipline", "contracts.c11_hdf5_cache_file"],
         "runtime": "contracts.rt_c05",
         "assumptions": [
             "arrays are opaque values compared by content; numpy's `!=`/norm inside compare_dict_of_arrays are not modelled: tolerance 0 = equal contents, "
@@ -153,7 +205,9 @@ PROPS = {
             "BaseDiscipline.execute: SimpleCache policy, no data processor, grammar validation has no effect, prepare_input_data is a function of the data passed in, "
             "_run (through _execute_monitored) allocates but does not modify existing arrays in place",
         ],
-        "not_covered": ["HDF5Cache (h5py), reopening a cache file", "multi-process locking", "Discipline.linearize Jacobian-cache protocol",
+        "not_covered": ["HDF5Cache on top of its file handler (read_hashes, subtyping of _read_data/_write_data/_has_group against the storage specification); the file handler "
+                        "HDF5FileSingleton.write_data/read_data/_has_group and the sparse write/read pair ARE verified over an abstract h5py/scipy model (contracts/c11_hdf5_cache_file.py, "
+                        "assumptions listed under C11)", "multi-process locking", "Discipline.linearize Jacobian-cache protocol",
                         "BaseDiscipline.execute with MemoryFullCache/HDF5Cache (data converter branches)", "in-place modification of inputs by _run",
                         "BaseCache.input_names/output_names/names_to_sizes (cached names), get_all_entries, update, __add__, to_dataset, to_ggobi",
                         "arrays returned by a lookup are shared with the cache (SimpleCache, MemoryFullCache not shared): modifying them in place changes the cached entry",
@@ -166,8 +220,10 @@ PROPS = {
                       "received exception of a listed class and always terminates and joins its workers; proof of the worker loop (_execute_workers: exactly one "
                       "result per task taken, on the normal and on the exception path) and of _TaskCallables.__call__.",
         "level_note": "The OS scheduler and the queue implementation are outside of the logic: the queue contract (exactly-once delivery, arbitrary order) is an "
-                      "assumption, under which the order-sensitive sequential code is proved for every delivery order. Consequences for DOE / chains / "
-                      "linearization / derivative approximation are not under contract yet.",
+                      "assumption, under which the order-sensitive sequential code is proved for every delivery order. Parallel forward finite differences "
+                      "(FirstOrderFD._compute_parallel_grad, contracts/c16_approx.py) are proved to return exactly the quotients of the sequential _compute_grad (same "
+                      "postcondition, which determines the result) through the positional summary of execute. Other consequences for DOE / chains / "
+                      "linearization / the other derivative approximators are not under contract yet.",
         "design_ref": "DESIGN.md §4 C13",
         "modules": ["contracts.c13_parallel", "contracts.c16_approx"],
         "assumptions": [
@@ -178,7 +234,7 @@ PROPS = {
             "callbacks return normally; exceptions_to_re_raise only contains exception classes; n_processes >= 1 (PositiveInt in all settings)",
             "POSIX platform; a process named 'subprocess' is a (daemonic) gemseo worker",
         ],
-        "not_covered": ["_check_unicity (set cardinality)", "parallel DOE / DiscParallelExecution / DiscParallelLinearization / parallel finite differences write-back",
+        "not_covered": ["_check_unicity (set cardinality)", "parallel DOE / DiscParallelExecution / DiscParallelLinearization / parallel centered differences and complex step, compute_optimal_step",
                         "shared caches and locks under true concurrency", "pickling of workers and data (C20)"],
     },
     "C08": {
@@ -215,10 +271,21 @@ PROPS = {
                       "outputs of p and differentiated inputs of c), a discipline with both a requested input and a requested output keeps all of them, and "
                       "Discipline.add_differentiated_inputs/outputs and _apply_diff_ios only ever add names (monotonic, exact sets). Function by function: _initialize_add_diff_io, "
                       "_bfs_one_way_diff_io, _merge_diff_ios, _merge_diff_io_special, _apply_diff_ios, traverse_add_diff_io, DependencyGraph.__create_graph. "
-                      "The numerical chain rule itself is not addressed; see not_covered.",
-        "level_note": "Trusted: as C08 (graph plugin pyvc/plug_graph.py), the ghost maps of differentiated names for opaque disciplines. Assumed: contract of "
+                      "Chains (contracts.c09_chains): MDOChain._compute_diff_in_outs - for ANY previously cached request (representation invariant of the cache: None, or a pair "
+                      "of sets the disciplines already cover) the disciplines' differentiated inputs/outputs cover the CURRENT request as traverse_add_diff_io's contract says, nothing "
+                      "is ever removed, and the cache stays valid (two variants: existing / not yet built coupling structure); MDOAdditiveChain._compute_jacobian - for any number of "
+                      "disciplines, summed outputs and requested inputs (loop invariants) the block of every summed output w.r.t. every requested input has the variables' sizes and is "
+                      "the sum, in chain order, of the blocks of the disciplines that have one (conditional fold cfold), the summed outputs have exactly the requested inputs, every other "
+                      "output keeps the entry the parallel chain computed, and the disciplines' own Jacobian arrays are not modified; plus a bounded stand-in (2 disciplines, 1 summed output, "
+                      "1 input) that executes the code as written - comprehension, sum, in-place operators on the very arrays of the disciplines - with the sum written out explicitly. "
+                      "The chain rule of MDOChain (reverse accumulation) is not addressed; see not_covered.",
+        "level_note": "Chains: disciplines are opaque, their Jacobians a ghost dictionary of the chain (pyvc/plug_c09.py); ASSUMED: the summary of MDOParallelChain._compute_jacobian "
+                      "(prophecy ghosts for what the parallel linearisation leaves in the disciplines and in self.jac), the constructor model of CouplingStructure (its graph is the "
+                      "dependency graph specified by the contract verified on __create_graph), shapes of linearised blocks = variable sizes (what Discipline._check_jacobian_shape enforces), "
+                      "sum(filtered comprehension) = conditional left fold. One known finding (KeyError of the additive chain when a discipline has no entry for a summed output), see "
+                      "known_findings.json. Trusted: as C08 (graph plugin pyvc/plug_graph.py), the ghost maps of differentiated names for opaque disciplines. Assumed: contract of "
                       "networkx.edge_bfs/reverse_view; reach = reflexive-transitive closure (closure axioms). Not proved: requested endpoints of paths of length >= 1 "
-                      "(needs the unfolding of reach), minimality of the selection, the request cache of MDOChain._compute_diff_in_outs, Jacobian accumulation.",
+                      "(needs the unfolding of reach), minimality of the selection, the Jacobian accumulation of MDOChain.",
         "design_ref": "DESIGN.md §4 C09",
         "modules": ["contracts.c09_chain_rule", "contracts.c09_chains"],
         "assumptions": [
@@ -228,12 +295,19 @@ PROPS = {
             "an opaque discipline reacts to add_differentiated_inputs/outputs as the contract verified on Discipline.add_differentiated_inputs/outputs states (ghost maps c09_diff_in/out)",
             "grammar.data_converter.is_continuous(name) is an uninterpreted predicate of (discipline, grammar, name); BaseGrammar.has_names(names) = set(keys).issuperset(names)",
             "a tuple of lists stored in a dict is stored by value; the lists it holds are tracked as the lists of that slot (aliasing between two mappings sharing a list, as created by _merge_diff_io_special, is not tracked)",
+            "chains: discipline.jac of an opaque discipline is its slot in a ghost dictionary of the chain; a block read from it is the block of that slot (in-place writes are written back)",
+            "chains: after MDOParallelChain._compute_jacobian every discipline's jac is a dictionary; blocks of the pair (o, x) have shape (size(o), size(x)); every requested input of the chain is differentiated by some discipline producing the summed output",
+            "chains: MDOChain class invariant - _coupling_structure is None implies _last_diff_inouts is None (both set by __init__, only _compute_diff_in_outs assigns them)",
         ],
+        "bounded_standins": ["MDOAdditiveChain._compute_jacobian@two-disciplines: 2 disciplines (possibly the same twice), 1 summed output, 1 requested input, symbolic names, shapes and block contents"],
         "not_covered": [
             "for a path of length >= 1: that the requested input x is a differentiated input of the first discipline and the requested output o a differentiated output of the last one (the contracts of _merge_diff_ios give it once a first/last edge is exhibited; exhibiting it needs the unfolding axiom of reach)",
             "exactness/minimality of the selection (only coverage is proved for the traversals and merges)",
-            "ValueError of traverse_add_diff_io (allowed, not characterised), MDOChain._compute_diff_in_outs request cache",
-            "reverse_chain_rule/_compute_jacobian accumulation (numerical chain rule), copy_jacs, _init_jacobian, parallel/additive chains (DESIGN bounded stand-in not built)",
+            "ValueError of traverse_add_diff_io (allowed, not characterised; the state of the request cache after it is not specified)",
+            "MDOChain.reverse_chain_rule/_compute_jacobian accumulation (numerical chain rule, matrix products), copy_jacs, Discipline._init_jacobian (zero blocks for independent pairs)",
+            "MDOParallelChain._compute_jacobian itself (assumed summary: parallel execution machinery, merge loop), MDAChain, nested combinations",
+            "additive chain: that the disciplines' blocks are the exact Jacobians of the disciplines (opaque), sparse / JacobianOperator blocks, numpy broadcasting of blocks of unequal shapes",
+            "the constructor of CouplingStructure (consistency check, execution sequence) - modelled, not executed",
         ],
     },
     "C15": {
@@ -243,7 +317,14 @@ PROPS = {
                       "default keys are element names, the two parts are bound to their own grammar, namespaced names are elements), changes the abstract view "
                       "(names->types, required set, defaults, namespace maps) exactly as specified and nothing else, that read-only queries change nothing, and that SimpleGrammar "
                       "validation raises InvalidDataError exactly when a required name is missing or a present typed element holds a non-instance (both directions). "
-                      "JSON-schema and pydantic grammars, pickling and the Simple/JSON/reference-validator agreement are NOT covered; see level_note.",
+                      "For JSONGrammar (contracts/c15_json_grammar.py, the genson builder being an abstract object with ASSUMED add_schema/add_object/to_schema contracts): "
+                      "proof of the CACHE-INVALIDATION PROTOCOL - every mutator (_delitem, _rename_element, _restrict_to, _clear, _update, _update_from_names/_types/_data, "
+                      "update_from_schema) changes the builder's properties exactly as specified and re-establishes cache validity (a cached schema dictionary lists exactly the "
+                      "current properties and keywords; a cached validator was compiled from a dictionary listing exactly the current properties, without 'required'), and the "
+                      "queries schema, _create_validator, _validate, to_json rely on it, leave the definition unchanged and (validate) return the verdict of a validator "
+                      "compiled from the CURRENT definition. Three natively confirmed defects are exposed as known findings with regions (stale/missing 'required' in schema, "
+                      "validate() popping 'required' from the cached schema, update_from_schema dropping the schema's required names). "
+                      "Pydantic grammars and the Simple/JSON/reference-validator agreement are NOT covered; see level_note.",
         "level_note": "Trusted: pyvc and its dict/set models; types and data values are opaque values and isinstance(value, type) is an uninterpreted predicate; the "
                       "collections.abc mixin methods the classes inherit (Mapping.__contains__/keys/items/get, MutableMapping.pop/update, MutableSet.__ior__/__iand__/remove/clear, "
                       "copy.copy of a plain instance) are modelled in pyvc/plug_grammars.py from their CPython definitions over the verified primitives (add, discard, __setitem__, "
@@ -258,11 +339,15 @@ PROPS = {
             "an Iterable[str] argument (names, excluded_names, required_names) is represented by its set of elements; a StrKeyMapping argument by a dict",
             "update_namespaces: keys of the other map are added, other entries unchanged (values - a name or a list of names - are opaque); __create_data_converter only sets _data_converter",
             "distinct grammar arguments do not alias (g.update(g) is not covered)",
+            "JSON grammars: genson builder = (properties dict, own required set or none, other root keywords never including properties/required/id, always $schema); assumed add_schema "
+            "(replace/merge properties, INTERSECT the own required set), add_object, to_schema/to_json; `properties`/`required` are the live containers (`required`: a new empty set when none is tracked); "
+            "fastjsonschema.compile depends only on the dictionary content; __cast_data_mapping keeps the keys; len(dict) >= number of distinguished keys it holds",
             "message construction (MultiLineString, f-strings, logging) is dropped",
         ],
         "not_covered": [
-            "JSONGrammar (genson/fastjsonschema): schema/validator cache protocol, JSON-schema acceptance vs a reference validator, to_simple_grammar - natively confirmed defects are reported, not proved",
-            "PydanticGrammar; pickling (__getstate__/__setstate__, Serializable); agreement Simple <-> JSON grammars",
+            "JSONGrammar: JSON-schema acceptance vs a reference validator (fastjsonschema.compile is a function of the schema dictionary, nothing more), the property schema genson infers from a value, "
+            "_copy, set_descriptions, update_from_file/to_file (file I/O), _check_name, __iter__, _get_names_to_types/to_simple_grammar, __repr__; the BaseGrammar template methods are verified for SimpleGrammar only",
+            "PydanticGrammar; agreement Simple <-> JSON grammars (pickling of JSON grammars: see C20, contracts/c20_state.py)",
             "renaming onto another existing element: only WFG and the frame are specified (the overwritten element's requiredness/default survive)",
             "the values of to_namespaced/from_namespaced (only their key sets are specified); names_without_namespace, __repr__/_repr_html_, data converter",
             "__iter__ of the three classes and RequiredNames._from_iterable/__str__ are only exercised inlined at their call sites",
@@ -274,7 +359,12 @@ PROPS = {
                       "__setstate__ on a fresh instance restores plain attributes from the state and writes the saved values of shared attributes into the NEW "
                       "shared cells created by _init_shared_memory_attrs_before (no cell of the original is written), proof of the before-hooks of ProblemFunction, "
                       "ExecutionStatistics and ExecutionStatus against that hook specification, round-trip lemma over these contracts, and per-class lemma that "
-                      "the declared exclusion names designate the attributes they are meant to exclude.",
+                      "the declared exclusion names designate the attributes they are meant to exclude. "
+                      "contracts/c20_state.py: HDF5Cache.__init__/__getstate__/__setstate__ (state = tolerance, path of THIS cache's file, path of THIS cache's node, name; "
+                      "__setstate__ re-runs __init__ with exactly these keywords, CPython keyword binding of the state dictionary) with the round-trip lemma (same node, same real "
+                      "file path, same tolerance and name); JSONGrammar.__getstate__ (state = instance dictionary minus validator/builder/_defaults plus the CURRENT defaults as a plain "
+                      "dict under 'defaults', whatever stray entry the dictionary holds under that key) and __setstate__ (every entry restored, builder refilled from the pickled "
+                      "schema, restored defaults exactly those of the state; KeyError exactly when a default is no property of the pickled schema).",
         "level_note": "Instance dictionaries are modelled as a dict field; attribute values are opaque with recognisable kinds (Synchronized / Path / PurePath). "
                       "The whole-class question (is every non-picklable attribute excluded and rebuilt) is not a function contract and is not covered.",
         "design_ref": "DESIGN.md §4 C20",
@@ -284,10 +374,13 @@ PROPS = {
             "pickle calls __setstate__ on an instance created by cls.__new__ (empty dictionary)",
             "hook specification (assumed for overrides that are not verified): _init_shared_memory_attrs_before creates new shared cells only; "
             "_init_shared_memory_attrs_after only touches attributes excluded from serialization",
+            "HDF5Cache: str(s) == s for a str, HDF5FileSingleton(path) is the handler of realpath(path) holding a str path, the cache name is never empty (class invariants used by the round-trip lemma)",
             "round-trip lemma: same-platform path round trip Path(to_os_specific(p)) == p; class well-formedness (the Synchronized attributes are exactly "
             "those re-created as Synchronized by the before-hook)",
         ],
-        "not_covered": ["JSONGrammar / PydanticGrammar / HDF5Cache / DisciplineData __getstate__/__setstate__ overrides", "pickle itself, picklability of the "
+        "not_covered": ["PydanticGrammar / DisciplineData __getstate__/__setstate__ overrides; for JSONGrammar the parts (Defaults, builder, required names) are opaque values read through ghost heaps: "
+                        "BaseGrammar.clear / schema / Defaults.update / builder.add_schema are assumed there (verified under C15 on the field-level model); HDF5Cache: BaseFullCache.__init__, _read_hashes "
+                        "and the HDF5FileSingleton multiton are assumed", "pickle itself, picklability of the "
                         "remaining attribute values", "behavioural equivalence of restored disciplines (execute/linearize agree)"],
     },
     "C10": {
@@ -351,7 +444,7 @@ PROPS["C11"] = {
                   "tools/validate_h5py_model.py), sorted() as a deterministic duplicate-free listing, float64 = reals, ASCII output names. "
                   "The property is claimed at the level of the writer primitives only; DesignSpace / OptimizationProblem / HDF5Cache files are not under contract.",
     "design_ref": "DESIGN.md §4 C11",
-    "modules": ["contracts.c11_hdf_database"],
+    "modules": ["contracts.c11_hdf_database", "contracts.c11_hdf5_cache_file"],
     "runtime": "contracts.rt_c11",
     "assumptions": [
         "abstract HDF node (pyvc/plug_hdf.py): A1 File modes w/a/r and persistence of what was written; A2 require_group; A3 `in`/len of a group; A4 create_dataset "
@@ -366,6 +459,13 @@ PROPS["C11"] = {
         "ASSUMED explicitly (axiom of add_pending_array): hash(HashableNdarray) is collision free on the arrays of one history - the pending buffer is keyed by "
         "hash(array); with a collision the earlier pending array is silently replaced and never exported (counter-model exists, not replayable with xxh3-64)",
         "cited lemma (finite sets, assumed): the names of a finite map not in a duplicate-free list of some of its names are |map| - |list| many",
+        "HDF5 cache file (contracts/c11_hdf5_cache_file.py, also served to C05): HDF5FileSingleton.write_data / read_data / _has_group / __write_sparse_array / "
+        "__read_sparse_array are verified over the abstract cache file (entries -> hash + entry groups -> datasets with attributes; h5py A4/A16) with SciPy sparse "
+        "arrays modelled as (format tag, data, indices, indptr, shape): ASSUMED scipy contract S1 tocsr() is a CSR array denoting the same matrix, S2 a CSR array "
+        "denotes csr_den(triple, shape), S3 csr_array((d, i, p), s) has these components, S4 hasattr(v, 'indptr') depends on the format only and holds for CSR "
+        "(validated natively, tools/validate_h5py_model.py); numpy astype str->bytes->str is the identity on (ASCII) str arrays; data are str, numeric or sparse "
+        "arrays (never bytes arrays); the open/keep_open/close protocol and the lock of HDF5FileSingleton are not verified (self.__file gives the persistent content); "
+        "round-trip lemmas SparseRoundTrip / CacheFileRoundTrip: read(write(v)) is an equal array, sparse arrays equal AS MATRICES",
         "output values: isinstance(value, (ndarray, list)) is the uninterpreted predicate is_arr(value); HDFDatabase.__to_real is the identity on real data; "
         "sorted(names) is a deterministic duplicate-free listing of the set of names (alphabetical order not modelled)",
     ],
@@ -377,7 +477,7 @@ PROPS["C11"] = {
         "export. 2140 scenarios, 0 failures on the pinned tree (36 s). This stands in for the unproved to_file / update_from_file / round-trip clauses.",
     ],
     "not_covered": ["HDFDatabase.to_file and update_from_file (designed contracts not yet verified; bounded stand-in only)", "round-trip lemma and 'incremental append == single final export' lemma",
-                    "DesignSpace.to_hdf/from_hdf/to_csv/from_csv, OptimizationProblem.to_hdf/from_hdf, HDF5Cache", "HDF5 library / file-system behaviour, complex values (imaginary part dropped by __to_real), "
+                    "DesignSpace.to_hdf/from_hdf/to_csv/from_csv, OptimizationProblem.to_hdf/from_hdf", "HDF5Cache itself (hash index read_hashes, behavioural subtyping of _read_data/_write_data against BaseFullCache's storage specification, update_file_format); only its file handler HDF5FileSingleton is under contract", "HDF5 library / file-system behaviour, complex values (imaginary part dropped by __to_real), "
                     "non-ASCII output names (numpy.array(.., dtype=bytes_) raises UnicodeEncodeError: export fails)", "hash collisions in the pending buffer"],
 }
 
@@ -400,7 +500,7 @@ PROPS["C17"] = {
                   "Not covered: 'optimising any of them reaches the same optimum' (optimiser behaviour), total derivatives through the MDA (C07/C09), BiLevel.",
     "design_ref": "DESIGN.md §4 C17",
     "runtime": "contracts.rt_c17",
-    "modules": ["contracts.c17_formulations", "contracts.c17_idf_norm"],
+    "modules": ["contracts.c17_formulations", "contracts.c17_idf_norm", "contracts.c17_mdf"],
     "assumptions": [
         "facts about the recursive offset functions off/offm and the prefix sum psum_i used as axioms in the function contracts (off-monotone, offm-monotone, "
         "psum-bridge, consumed-is-offset) are proved by induction (base + step obligations) in the lemma contract OffsetLemmas",
@@ -417,6 +517,15 @@ PROPS["C17"] = {
                     "DisciplineAdapter (__create_discipline_input_data, _convert_jacobian_to_array: data converters / slices of the grammar)",
                     "ConsistencyConstraint._jac_to_wrap (identity blocks; newaxis broadcasting)", "IDF._get_normalization_factor, MDF._remove_couplings_from_ds / _remove_unused_variables (variable-set facts; "
                     "IDF._update_design_space is proved)", "matrix-valued FunctionFromDiscipline Jacobians (unmask itself is proved for matrices)"],
+}
+
+PROPS["C14"] = {
+    "level_text": "PARTIAL (work in progress). gemseo's own side of the DOE libraries.",
+    "level_note": "Trusted: pyvc, numpy model, z3. Third-party samplers assumed.",
+    "design_ref": "DESIGN.md §4 C14",
+    "modules": ["contracts.c14_doe"],
+    "assumptions": [],
+    "not_covered": [],
 }
 
 _TODO = "not yet under contract in this build; see DESIGN.md §9 (build order) - no other technique is substituted"
